@@ -37,6 +37,10 @@ def ALPHABETS():
 
 def warmup():
     H.warm()
+    # the first 3500-grain update of a process costs ~4 s of CPU (one-off), later ones 0.25 s:
+    # pay it once in the parent, before the workers are forked
+    a = H.pd().Mineral(seed=7)
+    H.update(a, H.params_for(0, "default"), np.eye(3), H.flow("ss_xz"), 0.0, 0.05)
 
 
 # update alphabet: the 12 shared letters plus a rigid-body rotation (finite L with D = 0)
@@ -225,7 +229,13 @@ def run_default(key):
     if abs(a.fractions[0][0] - 1.0 / n) > 1e-15:
         V(res, key, "default_uniform", {"f0": float(a.fractions[0][0])})
     h0 = H.snapshot_hashes(a)
-    F = H.update(a, H.params_for(0, "default"), np.eye(3), H.flow("ss_xz"), 0.0, 0.2)
+    try:
+        F = H.update(a, H.params_for(0, "default"), np.eye(3), H.flow("ss_xz"), 0.0, 0.2)
+    except H.UpdateTimeout:
+        res["notes"]["updates_over_cpu_limit"] = 1
+        res["obs"] = digest(a.orientations[0])
+        res["sample"] = {"case": key, "n_grains": n, "note": "update over CPU limit"}
+        return res
     res["trans"] = 1
     res["n"] += 1
     if len(a.orientations) != 2 or H.snapshot_hashes(a)[:1] != h0:
